@@ -770,26 +770,27 @@ def case_strategy():
 
     target = st.sampled_from([f for f in T_OUTSIDE] + ["../secret.html", "../../a.html", "mod/a.html.py", "root2/a.html"])
 
-    @st.composite
-    def targeted(draw):
+    def make_targeted(pre, ups, noise, tgt, seps, lead_, trail_):
         # prefix of inside directories, enough '..' (plus noise) to leave the root from a caller of depth<=3, then
         # the path of an existing outside file - each gap with its own separator
-        pre = draw(st.lists(st.sampled_from(["sub", ".", "", "a.html", "root", "sub/..", "outside"]), max_size=3))
-        ups = draw(st.integers(1, 6))
-        noise = draw(st.lists(st.sampled_from([".", "", "sub/..", "x/.."]), max_size=2))
         mid = [".."] * ups
-        for nz in noise:
-            mid.insert(draw(st.integers(0, len(mid))), nz)
-        tgt = draw(target).split("/")
-        segs = pre + mid + tgt
-        parts = [(s, draw(sep)) for s in segs]
-        return join(parts, draw(lead), draw(trail))
+        for nz, pos in noise:
+            mid.insert(min(pos, len(mid)), nz)
+        segs = pre + mid + tgt.split("/")
+        return join([(sg, seps[i % len(seps)]) for i, sg in enumerate(segs)], lead_, trail_)
+
+    targeted = st.builds(
+        make_targeted,
+        st.lists(st.sampled_from(["sub", ".", "", "a.html", "root", "sub/..", "outside"]), max_size=3),
+        st.integers(1, 6),
+        st.lists(st.tuples(st.sampled_from([".", "", "sub/..", "x/.."]), st.integers(0, 6)), max_size=2),
+        target, st.lists(sep, min_size=14, max_size=14), lead, trail)
 
     absolute = st.builds(
         lambda ld, tsep, rel, mid: {"uri": ld + TPH + mid.replace("/", tsep) + tsep.join(rel.split("/")), "tsep": tsep},
         lead, st.sampled_from(SEPS), st.sampled_from(ABS_RELS), st.sampled_from(["/", "/../T/", "/root/../", "//", "/./"]))
 
-    uri = st.one_of(free.map(lambda u: {"uri": u}), targeted().map(lambda u: {"uri": u}), targeted().map(lambda u: {"uri": u}),
+    uri = st.one_of(free.map(lambda u: {"uri": u}), targeted.map(lambda u: {"uri": u}), targeted.map(lambda u: {"uri": u}),
                     absolute)
     route = st.one_of(
         st.just({"mode": "direct"}),
